@@ -83,6 +83,8 @@ struct RootFacts {
     asm: BTreeSet<String>,
     crates: BTreeSet<String>,
     fnptr_casts: BTreeSet<String>,
+    expanded: BTreeSet<String>,
+    unexpanded: BTreeSet<String>,
 }
 
 struct ConstScan<'a, 'tcx> {
@@ -153,6 +155,7 @@ fn first_local_site(path: &[(String, String)], local_crate: &str) -> String {
 fn walk_root<'tcx>(tcx: TyCtxt<'tcx>, root: Instance<'tcx>) -> RootFacts {
     let mut rf = RootFacts::default();
     let tenv = TypingEnv::fully_monomorphized();
+    let expand: Vec<String> = std::env::var("MIRFACTS_EXPAND_VIRTUAL").unwrap_or_default().split(',').filter(|x| !x.is_empty()).map(|x| x.to_string()).collect();
     let mut seen: HashMap<Instance<'tcx>, (Option<Instance<'tcx>>, String)> = HashMap::new();
     let mut q: VecDeque<Instance<'tcx>> = VecDeque::new();
     seen.insert(root, (None, String::new()));
@@ -188,6 +191,68 @@ fn walk_root<'tcx>(tcx: TyCtxt<'tcx>, root: Instance<'tcx>) -> RootFacts {
             }
             _ => None,
         };
+        // class-hierarchy expansion of selected virtual calls (thorough tier): every impl of the trait whose generics are
+        // determined by the trait's own type arguments is walked; anything else is reported as unexpanded and stays a leaf
+        if let InstanceKind::Virtual(..) = inst.def {
+            if let Some(tr) = tcx.trait_of_assoc(did) {
+                let tname = tcx.def_path_str(tr);
+                if expand.iter().any(|e| e == &tname) {
+                    let mut expanded = 0usize;
+                    let mut unexp: Vec<String> = Vec::new();
+                    for imp in tcx.all_impls(tr) {
+                        let tref = tcx.impl_trait_ref(imp).instantiate_identity().skip_norm_wip();
+                        let g = tcx.generics_of(imp);
+                        let n = g.count();
+                        let mut slots: Vec<Option<ty::GenericArg<'tcx>>> = vec![None; n];
+                        // unify the trait's non-Self arguments: `impl<T> Tr<T> for X<T>` against the call's Tr<f32>
+                        let mut ok = true;
+                        for (ia, ca) in tref.args.iter().skip(1).zip(inst.args.iter().skip(1)) {
+                            match ia.kind() {
+                                ty::GenericArgKind::Type(t) => match t.kind() {
+                                    ty::Param(p) => {
+                                        if (p.index as usize) < n {
+                                            slots[p.index as usize] = Some(ca);
+                                        }
+                                    }
+                                    _ => {
+                                        if ia != ca {
+                                            ok = false;
+                                        }
+                                    }
+                                },
+                                _ => {}
+                            }
+                        }
+                        if !ok {
+                            continue; // impl for other type arguments (e.g. f64 when the call is f32)
+                        }
+                        if slots.iter().any(|s| s.is_none()) {
+                            unexp.push(tcx.def_path_str(imp));
+                            continue;
+                        }
+                        let impl_args = tcx.mk_args(&slots.iter().map(|s| s.unwrap()).collect::<Vec<_>>());
+                        let ctref = tcx.impl_trait_ref(imp).instantiate(tcx, impl_args).skip_norm_wip();
+                        match Instance::try_resolve(tcx, tenv, did, ctref.args) {
+                            Ok(Some(c)) => {
+                                expanded += 1;
+                                if !seen.contains_key(&c) {
+                                    seen.insert(c, (Some(inst), format!("<impl {}>", tcx.def_path_str(imp))));
+                                    q.push_back(c);
+                                }
+                            }
+                            _ => unexp.push(tcx.def_path_str(imp)),
+                        }
+                    }
+                    rf.expanded.insert(format!("{} -> {} impls", inst_name(tcx, inst), expanded));
+                    for u in unexp {
+                        rf.unexpanded.insert(format!("{} : {}", inst_name(tcx, inst), u));
+                    }
+                    if expanded > 0 {
+                        continue;
+                    }
+                }
+            }
+        }
         if let Some(kind) = leaf_kind {
             let p = path_of(&seen, inst);
             let site = first_local_site(&p, "");
@@ -316,7 +381,7 @@ fn mode_m(tcx: TyCtxt<'_>) -> String {
             .map(|(n, (c, m, t, f))| format!("{{\"path\":{},\"crate\":{},\"mutable\":{},\"tls\":{},\"freeze\":{}}}", esc(n), esc(c), m, t, f))
             .collect();
         out.push(format!(
-            "{{\"root\":{},\"instances\":{},\"leaves\":{},\"statics\":{},\"indirect\":{},\"asm\":{},\"fnptr_casts\":{},\"crates\":{}}}",
+            "{{\"root\":{},\"instances\":{},\"leaves\":{},\"statics\":{},\"indirect\":{},\"asm\":{},\"fnptr_casts\":{},\"crates\":{},\"expanded\":{},\"unexpanded\":{}}}",
             esc(&name),
             rf.instances,
             jlist(&leaves),
@@ -324,7 +389,9 @@ fn mode_m(tcx: TyCtxt<'_>) -> String {
             jlist(&rf.indirect.iter().map(|x| esc(x)).collect::<Vec<_>>()),
             jlist(&rf.asm.iter().map(|x| esc(x)).collect::<Vec<_>>()),
             jlist(&rf.fnptr_casts.iter().map(|x| esc(x)).collect::<Vec<_>>()),
-            jlist(&rf.crates.iter().map(|x| esc(x)).collect::<Vec<_>>())
+            jlist(&rf.crates.iter().map(|x| esc(x)).collect::<Vec<_>>()),
+            jlist(&rf.expanded.iter().map(|x| esc(x)).collect::<Vec<_>>()),
+            jlist(&rf.unexpanded.iter().map(|x| esc(x)).collect::<Vec<_>>())
         ));
     }
     format!("\"roots\":{}", jlist(&out))
